@@ -151,6 +151,15 @@ where
                     }
                 }
             }.boxed()).detach();
+
+            // `target` is only a temporary reference, but it is the last one if every other reference went away while the poll was being
+            // scheduled. This can be running inside one of the target's own jobs (a stream may wake us while it is being polled), where
+            // dropping the Desync would wait for that very job forever: it's disposed of where pipes dispose of their other references
+            if let Some(last_reference) = Arc::into_inner(target) {
+                REFERENCE_CHUTE.desync(move |_| {
+                    let _ = panic::catch_unwind(panic::AssertUnwindSafe(move || std::mem::drop(last_reference)));
+                });
+            }
         } else {
             // Stream has woken up but the desync is no longer listening
             let old_poll_fn = arc_self.poll_fn.lock().unwrap().take();
